@@ -5,8 +5,9 @@ Two comparisons per implementation call, both evaluated inside Coq on exact rati
          fp_metric) - the tie between the theorems and the source;
   prop : the implementation's float(s) against the *definition* (tanimoto_def ... soergel_def of the dense vectors) -
          the property itself, stated directly on the implementation (only for vector lengths <= 128).
-A call whose input lies in a class that a `_refuted` theorem of Properties/C06.v names is reported under that
-class's finding key (see FINDING_KEYS); everything else is a plain VIOLATION.
+Only the exact outcome that `fp_tanimoto_explicit_zero_refuted` / `fp_dice_explicit_zero_refuted` describe (see
+zero_count_key) is reported under the known-finding key; everything else is a plain VIOLATION.
+`replay(ctx, file)` re-runs the recorded call on both sides (exit 1 + VIOLATION line if it still fails).
 """
 import json
 import os
@@ -30,6 +31,129 @@ PRODUCT_DB_MAX_BITS = 2 ** 20     # X * Y.T and scipy.sparse.linalg.norm allocat
 FINDING_KEYS = {'explicit_zero': 'fp-tanimoto-dice-explicit-zero-count'}
 
 
+FP_PAIR_FORMS = ('fm', 'fp,fp', 'fp,None')
+
+
+def known_zero_value(m, a0, b0):
+    """The known wrong value of fingerprint-pair tanimoto/dice: every *stored* position counts as a set bit."""
+    A, B = set(a0['idx']), set(b0['idx'])
+    i = len(A & B)
+    if m == 'tanimoto':
+        d = len(A) + len(B) - i
+        return Fraction(i, d) if d else Fraction(0)
+    d = len(A) + len(B)
+    return Fraction(2 * i, d) if d else Fraction(0)
+
+
+def zero_count_key(form, m, a0, b0, r):
+    """finding key for the `prop` comparison of this call, or None.  Only the exact known outcome is keyed:
+    fingerprint-pair form, tanimoto/dice, an operand with a stored zero count, and the implementation returned the
+    value obtained by counting stored positions as set bits."""
+    if form not in FP_PAIR_FORMS or m not in ('tanimoto', 'dice'):
+        return None
+    b0 = a0 if form == 'fp,None' else b0
+    if not (G.fp_has_explicit_zero(a0) or G.fp_has_explicit_zero(b0)):
+        return None
+    if r[0] != 'ok' or isinstance(r[1], list):
+        return None
+    if abs(r[1] - known_zero_value(m, a0, b0)) > Fraction(1, 10 ** 9):
+        return None
+    return FINDING_KEYS['explicit_zero']
+
+
+def pearson_mask(xs, ys):
+    cx = [G.is_const_nonzero(v) for v in xs]
+    cy = [G.is_const_nonzero(v) for v in ys]
+    return set((i, j) for i in range(len(xs)) for j in range(len(ys)) if cx[i] or cy[j])
+
+
+def vec1(v):
+    return G.vecs_lit([v])[1:-1]
+
+
+def other_object(okind, bits):
+    import numpy as np
+    return {'int': 3, 'str': 'abc', 'ndarray': np.zeros((1, min(bits, 64)))}[okind]
+
+
+def fp_exprs(form, m, a0, b0, da0, db0):
+    """(model expression, definition expression or None, Pearson mask or None, skip) for one fingerprint/database form.
+    a0, b0: fingerprint observations; da0, db0: database observations (None when the form does not use them)."""
+    mc = MCON[m]
+    bits = a0['bits'] if a0 is not None else da0['width']
+    small = bits <= PROP_MAX_WIDTH
+    la = fpgen.lit(a0) if a0 is not None else None
+    lb = fpgen.lit(b0) if b0 is not None else None
+    lda = G.db_lit(da0) if da0 is not None else None
+    ldb = G.db_lit(db0) if db0 is not None else None
+    va = G.fp_vec(a0, bits) if small and a0 is not None else None
+    vb = G.fp_vec(b0, b0['bits']) if small and b0 is not None and b0['bits'] == bits else None
+    vda = G.db_vecs(da0) if small and da0 is not None else None
+    vdb = G.db_vecs(db0) if small and db0 is not None and db0['width'] == bits else None
+    prop, mask = None, None
+    if form == 'fm':
+        model = 'Ok (Scalar (fp_metric %s %s %s))' % (mc, la, lb)
+        xs, ys, scalar = [va], [vb], True
+    elif form == 'fp,fp':
+        model = 'dispatch %s (IFp %s) (Some (IFp %s))' % (mc, la, lb)
+        xs, ys, scalar = [va], [vb], True
+    elif form == 'fp,None':
+        model = 'dispatch %s (IFp %s) None' % (mc, la)
+        xs, ys, scalar = [va], [va], True
+    elif form == 'fp,db':
+        model = 'dispatch %s (IFp %s) (Some (IDb %s))' % (mc, la, ldb)
+        xs, ys, scalar = [va], vdb, False
+    elif form == 'db,fp':
+        model = 'dispatch %s (IDb %s) (Some (IFp %s))' % (mc, lda, lb)
+        xs, ys, scalar = vda, [vb], False
+    elif form == 'db,db':
+        model = 'dispatch %s (IDb %s) (Some (IDb %s))' % (mc, lda, ldb)
+        xs, ys, scalar = vda, vdb, False
+    elif form == 'db,None':
+        model = 'dispatch %s (IDb %s) None' % (mc, lda)
+        xs, ys, scalar = vda, vda, False
+    else:
+        raise ValueError(form)
+    ok_vecs = small and xs is not None and ys is not None and all(v is not None for v in xs) and all(v is not None for v in ys)
+    if ok_vecs:
+        prop = ('Ok (def_scalar %s %s %s)' % (mc, vec1(xs[0]), vec1(ys[0]))) if scalar else \
+               ('Ok (def_pairwise %s %s %s)' % (mc, G.vecs_lit(xs), G.vecs_lit(ys)))
+        if m == 'pearson':
+            mask = pearson_mask(xs, ys)
+    return model, prop, mask, scalar
+
+
+def fp_action(form, m, mk_a, mk_b, mk_da, mk_db):
+    import e3fp.fingerprint.metrics as M
+    from e3fp.fingerprint.metrics import fprint_metrics as FM
+    f = getattr(M, m)
+    return {'fm': lambda: getattr(FM, m)(mk_a(), mk_b()), 'fp,fp': lambda: f(mk_a(), mk_b()), 'fp,None': lambda: f(mk_a()),
+            'fp,db': lambda: f(mk_a(), mk_db()), 'db,fp': lambda: f(mk_da(), mk_b()), 'db,db': lambda: f(mk_da(), mk_db()),
+            'db,None': lambda: f(mk_da())}[form]
+
+
+def arr_exprs(m, X, Y, width_mismatch=False):
+    mc = MCON[m]
+    xs, ys = G.arr_vecs(X), G.arr_vecs(Y if Y is not None else X)
+    model = 'array_metric %s %s %s' % (mc, G.arr_lit(X), 'None' if Y is None else '(Some %s)' % G.arr_lit(Y))
+    prop = None if width_mismatch else 'Ok (def_pairwise %s %s %s)' % (mc, G.vecs_lit(xs), G.vecs_lit(ys))
+    mask = pearson_mask(xs, ys) if m == 'pearson' and not width_mismatch else None
+    return model, prop, mask
+
+
+def arr_action(m, X, Y):
+    from e3fp.fingerprint.metrics import array_metrics as AM
+    return lambda: getattr(AM, m)(G.build_arr(X), None if Y is None else G.build_arr(Y))
+
+
+def case_exprs(r, model, prop, mask):
+    """The Coq boolean expressions of one call: [('corr', expr)] + [('prop', expr)]."""
+    out = [('corr', 'res_close %s %s (%s)' % (TOL, G.obs_lit(r, mask), model))]
+    if prop is not None:
+        out.append(('prop', 'res_close %s %s (%s)' % (TOL, G.obs_lit(r, mask), prop)))
+    return out
+
+
 def run(ctx):
     ok, res = core.proof_step(ctx)
     rng = ctx.rng
@@ -38,7 +162,8 @@ def run(ctx):
     dist = {'fp_pair_class': {}, 'fp_kinds': {}, 'bits': {}, 'forms': {}, 'measures': {}, 'array_class': {},
             'array_flags': {'nonbinary': 0, 'dups': 0, 'unsorted': 0, 'explicit_zeros': 0}, 'db_via_array': 0, 'db_rows': {},
             'outcomes': {'value': 0, 'exception': 0, 'nan': 0, 'complex': 0}, 'prop_checks': 0, 'nojit_cases': 0,
-            'skipped_tanimoto_dice_on_nonbinary_arrays': 0, 'masked_pearson_entries': 0,
+            'skipped_tanimoto_dice_on_nonbinary_arrays': 0, 'masked_pearson_entries': 0, 'masked_pearson_entries_by_form': {},
+            'masked_pearson_scalar_calls': 0, 'nondyadic_float_calls': 0, 'known_zero_count_outcomes': 0,
             'zero_scores': 0, 'one_scores': 0}
     allow = {}
 
@@ -60,39 +185,33 @@ def run(ctx):
             flat = [r[1]] if not isinstance(r[1], list) else [x for row in r[1] for x in row]
             dist['zero_scores'] += sum(1 for x in flat if x == 0)
             dist['one_scores'] += sum(1 for x in flat if abs(x - 1) < Fraction(1, 10 ** 9))
-        k1 = 'corr/' + key
         if mask:
             dist['masked_pearson_entries'] += len(mask)
-        cases.append((k1, 'res_close %s %s (%s)' % (TOL, G.obs_lit(r, mask), model)))
-        payloads[k1] = payload
-        mexpr[k1] = model
-        fkeys[k1] = None
-        if prop is not None:
-            k2 = 'prop/' + key
-            cases.append((k2, 'res_close %s %s (%s)' % (TOL, G.obs_lit(r, mask), prop)))
-            p2 = dict(payload)
-            p2['compared_with'] = 'the definition on the dense vectors'
-            payloads[k2] = p2
-            mexpr[k2] = prop
-            fkeys[k2] = fkey
-            dist['prop_checks'] += 1
-
-    def pearson_mask(xs, ys):
-        cx = [G.is_const_nonzero(v) for v in xs]
-        cy = [G.is_const_nonzero(v) for v in ys]
-        return set((i, j) for i in range(len(xs)) for j in range(len(ys)) if cx[i] or cy[j])
+            bump(dist['masked_pearson_entries_by_form'], payload.get('form', '?'), len(mask))
+        if mask and r[0] == 'ok' and not isinstance(r[1], list):
+            # scalar Pearson (fingerprint-pair form) with a constant operand whose value is not exactly representable: 0/0
+            dist['masked_pearson_scalar_calls'] += 1
+            return
+        for which, expr in case_exprs(r, model, prop, mask):
+            k = which + '/' + key
+            cases.append((k, expr))
+            pl_ = dict(payload)
+            if which == 'prop':
+                pl_['compared_with'] = 'the definition on the dense vectors'
+                dist['prop_checks'] += 1
+            payloads[k] = pl_
+            mexpr[k] = model if which == 'corr' else prop
+            fkeys[k] = fkey if which == 'prop' else None
 
     import e3fp.fingerprint.metrics as M
-    from e3fp.fingerprint.metrics import fprint_metrics as FM, array_metrics as AM
+    from e3fp.fingerprint.metrics import array_metrics as AM
 
     # ------------------------------------------------------------------ 1. fingerprints and databases
     def fp_forms(tag, cls, sa, sb):
         a0, b0 = fpgen.obs(fpgen.build(sa)), fpgen.obs(fpgen.build(sb))
         bits = a0['bits']
-        la, lb = fpgen.lit(a0), fpgen.lit(b0)
         small = bits <= PROP_MAX_WIDTH
-        va, vb = (G.fp_vec(a0, bits), G.fp_vec(b0, bits)) if small else (None, None)
-        trig_zero = G.fp_has_explicit_zero(a0) or G.fp_has_explicit_zero(b0)
+        nondyadic = cls == 'nondyadic_float'
         bump(dist['fp_pair_class'], cls)
         bump(dist['fp_kinds'], a0['kind'] + '/' + b0['kind'])
         bump(dist['bits'], str(bits))
@@ -102,59 +221,28 @@ def run(ctx):
         dsa = G.rand_db_spec(rng, ka, bits, include=sa)
         dsb = G.rand_db_spec(rng, kb, bits, include=sb)
         da0, db0 = G.db_obs(G.build_db(dsa)), G.db_obs(G.build_db(dsb))
-        for d, s in ((da0, dsa), (db0, dsb)):
+        for d, s_ in ((da0, dsa), (db0, dsb)):
             bump(dist['db_rows'], str(len(d['rows'])))
-            dist['db_via_array'] += s['via'] == 'array'
-        lda, ldb = G.db_lit(da0), G.db_lit(db0)
-        vda, vdb = (G.db_vecs(da0), G.db_vecs(db0)) if small else (None, None)
-        db_zero = any(v == 0 for d in (da0, db0) for r in d['rows'] for _, v in r)
+            dist['db_via_array'] += s_['via'] == 'array'
         for m in MEASURES:
-            mc = MCON[m]
             base = {'measure': m, 'class': cls, 'a': fpgen.obs_json(a0), 'b': fpgen.obs_json(b0)}
-
-            def fkey_fp():
-                return FINDING_KEYS['explicit_zero'] if m in ('tanimoto', 'dice') and trig_zero else None
-            forms = []
-            # fprint_metrics.<m>(a, b) and the dispatcher on two fingerprints
-            forms.append(('fm', lambda: getattr(FM, m)(fpgen.build(sa), fpgen.build(sb)),
-                          'Ok (Scalar (fp_metric %s %s %s))' % (mc, la, lb),
-                          None if not small else 'Ok (def_scalar %s %s %s)' % (mc, G.vecs_lit([va])[1:-1], G.vecs_lit([vb])[1:-1]),
-                          fkey_fp(), {}))
-            forms.append(('fp,fp', lambda: getattr(M, m)(fpgen.build(sa), fpgen.build(sb)),
-                          'dispatch %s (IFp %s) (Some (IFp %s))' % (mc, la, lb),
-                          None if not small else 'Ok (def_scalar %s %s %s)' % (mc, G.vecs_lit([va])[1:-1], G.vecs_lit([vb])[1:-1]),
-                          fkey_fp(), {}))
-            forms.append(('fp,None', lambda: getattr(M, m)(fpgen.build(sa)),
-                          'dispatch %s (IFp %s) None' % (mc, la),
-                          None if not small else 'Ok (def_scalar %s %s %s)' % (mc, G.vecs_lit([va])[1:-1], G.vecs_lit([va])[1:-1]),
-                          FINDING_KEYS['explicit_zero'] if m in ('tanimoto', 'dice') and G.fp_has_explicit_zero(a0) else None, {}))
             heavy = (m == 'pearson' and bits > PEARSON_DB_MAX_BITS) or (m != 'soergel' and bits > PRODUCT_DB_MAX_BITS)
-            if not heavy:
-                forms.append(('fp,db', lambda: getattr(M, m)(fpgen.build(sa), G.build_db(dsb)),
-                              'dispatch %s (IFp %s) (Some (IDb %s))' % (mc, la, ldb),
-                              None if not small else 'Ok (def_pairwise %s %s %s)' % (mc, G.vecs_lit([va]), G.vecs_lit(vdb)),
-                              None, {'dbB': G.db_json(db0)}))
-                forms.append(('db,fp', lambda: getattr(M, m)(G.build_db(dsa), fpgen.build(sb)),
-                              'dispatch %s (IDb %s) (Some (IFp %s))' % (mc, lda, lb),
-                              None if not small else 'Ok (def_pairwise %s %s %s)' % (mc, G.vecs_lit(vda), G.vecs_lit([vb])),
-                              None, {'dbA': G.db_json(da0)}))
-                forms.append(('db,db', lambda: getattr(M, m)(G.build_db(dsa), G.build_db(dsb)),
-                              'dispatch %s (IDb %s) (Some (IDb %s))' % (mc, lda, ldb),
-                              None if not small else 'Ok (def_pairwise %s %s %s)' % (mc, G.vecs_lit(vda), G.vecs_lit(vdb)),
-                              None, {'dbA': G.db_json(da0), 'dbB': G.db_json(db0)}))
-                forms.append(('db,None', lambda: getattr(M, m)(G.build_db(dsa)),
-                              'dispatch %s (IDb %s) None' % (mc, lda),
-                              None if not small else 'Ok (def_pairwise %s %s %s)' % (mc, G.vecs_lit(vda), G.vecs_lit(vda)),
-                              None, {'dbA': G.db_json(da0)}))
-            for form, act, model, prop, fk, extra in forms:
-                r = G.observe(act)
+            forms = list(FP_PAIR_FORMS) + ([] if heavy else ['fp,db', 'db,fp', 'db,db', 'db,None'])
+            for form in forms:
+                model, prop, mask, scalar = fp_exprs(form, m, a0, b0, da0 if 'db,' in form else None, db0 if ',db' in form else None)
+                if scalar and not nondyadic:
+                    mask = None       # exactly representable constants reach the zero-denominator branch: compared
+                r = G.observe(fp_action(form, m, lambda: fpgen.build(sa), lambda: fpgen.build(sb),
+                                        lambda: G.build_db(dsa), lambda: G.build_db(dsb)))
                 pl = dict(base)
-                pl.update(extra)
+                if 'db,' in form:
+                    pl['dbA'] = G.db_json(da0)
+                if ',db' in form:
+                    pl['dbB'] = G.db_json(db0)
                 pl['form'] = form
-                mask = None
-                if m == 'pearson' and small and 'db' in form:
-                    xs_, ys_ = {'fp,db': ([va], vdb), 'db,fp': (vda, [vb]), 'db,db': (vda, vdb), 'db,None': (vda, vda)}[form]
-                    mask = pearson_mask(xs_, ys_)
+                fk = zero_count_key(form, m, a0, b0, r)
+                dist['known_zero_count_outcomes'] += fk is not None
+                dist['nondyadic_float_calls'] += nondyadic
                 record('%s/%s/%s/%d' % (tag, form, m, len(cases)), r, model, pl, prop=prop, fkey=fk, mask=mask)
                 bump(dist['forms'], form)
                 bump(dist['measures'], m)
@@ -178,19 +266,23 @@ def run(ctx):
         m = rng.choice(MEASURES)
         mc = MCON[m]
         pl = {'measure': m, 'a': fpgen.obs_json(a0), 'b': fpgen.obs_json(b0), 'class': 'length-mismatch'}
-        record('rej/fp,fp/%s/%d' % (m, len(cases)), G.observe(lambda: getattr(M, m)(fpgen.build(sa), fpgen.build(sb))),
-               'dispatch %s (IFp %s) (Some (IFp %s))' % (mc, fpgen.lit(a0), fpgen.lit(b0)), pl)
-        record('rej/fp,db/%s/%d' % (m, len(cases)), G.observe(lambda: getattr(M, m)(fpgen.build(sa), G.build_db(dsb))),
-               'dispatch %s (IFp %s) (Some (IDb %s))' % (mc, fpgen.lit(a0), G.db_lit(db0)), pl)
-        record('rej/db,fp/%s/%d' % (m, len(cases)), G.observe(lambda: getattr(M, m)(G.build_db(dsb), fpgen.build(sa))),
-               'dispatch %s (IDb %s) (Some (IFp %s))' % (mc, G.db_lit(db0), fpgen.lit(a0)), pl)
+        for form, act, model, extra in (
+                ('fp,fp', lambda: getattr(M, m)(fpgen.build(sa), fpgen.build(sb)), fp_exprs('fp,fp', m, a0, b0, None, None)[0], {}),
+                ('fp,db', lambda: getattr(M, m)(fpgen.build(sa), G.build_db(dsb)), fp_exprs('fp,db', m, a0, None, None, db0)[0], {'dbB': G.db_json(db0)}),
+                ('db,fp', lambda: getattr(M, m)(G.build_db(dsb), fpgen.build(sa)), fp_exprs('db,fp', m, None, a0, db0, None)[0],
+                 {'dbA': G.db_json(db0), 'b': fpgen.obs_json(a0)})):
+            p_ = dict(pl)
+            p_.update(extra)
+            p_['form'] = form
+            record('rej/%s/%s/%d' % (form, m, len(cases)), G.observe(act), model, p_)
         import numpy as np
-        other = rng.choice([3, 'abc', np.zeros((1, a0['bits']))])
-        pl2 = {'measure': m, 'a': fpgen.obs_json(a0), 'b': repr(other), 'class': 'non-fingerprint'}
+        okind = rng.choice(['int', 'str', 'ndarray'])
+        other = other_object(okind, a0['bits'])
+        pl2 = {'measure': m, 'a': fpgen.obs_json(a0), 'other': okind, 'class': 'non-fingerprint'}
         record('rej/fp,other/%s/%d' % (m, len(cases)), G.observe(lambda: getattr(M, m)(fpgen.build(sa), other)),
-               'dispatch %s (IFp %s) (Some IOther)' % (mc, fpgen.lit(a0)), pl2)
+               'dispatch %s (IFp %s) (Some IOther)' % (mc, fpgen.lit(a0)), dict(pl2, form='fp,other'))
         record('rej/other,fp/%s/%d' % (m, len(cases)), G.observe(lambda: getattr(M, m)(other, fpgen.build(sa))),
-               'dispatch %s IOther (Some (IFp %s))' % (mc, fpgen.lit(a0)), pl2)
+               'dispatch %s IOther (Some (IFp %s))' % (mc, fpgen.lit(a0)), dict(pl2, form='other,fp'))
         ctx.count(('rej', m, str(a0), str(b0)), True, n=5)
         bump(dist['forms'], 'rejections', 5)
 
@@ -211,25 +303,24 @@ def run(ctx):
             Y['w'] = Y['w'] + 1
             Y['rows'] = [r + ([Fraction(0)] if Y['t'] == 'dense' else []) for r in Y['rows']]
             cls += '/width-mismatch'
-        xs, ys = G.arr_vecs(X), G.arr_vecs(Y if Y is not None else X)
+        xs = G.arr_vecs(X)
+        wm = 'width-mismatch' in cls
+        dist['nondyadic_float_calls'] += 5 * cls.startswith('floatx')
         for m in MEASURES:
-            mc = MCON[m]
             fk = None
             if m in ('tanimoto', 'dice') and fl['nonbinary']:
                 # array_metrics.tanimoto/dice: "Data must be binary. This is not checked." - outside their contract
                 bump(dist, 'skipped_tanimoto_dice_on_nonbinary_arrays')
                 continue
-            model = 'array_metric %s %s %s' % (mc, G.arr_lit(X), 'None' if Y is None else '(Some %s)' % G.arr_lit(Y))
-            prop = None if 'width-mismatch' in cls else 'Ok (def_pairwise %s %s %s)' % (mc, G.vecs_lit(xs), G.vecs_lit(ys))
-            r = G.observe(lambda: getattr(AM, m)(G.build_arr(X), None if Y is None else G.build_arr(Y)))
+            model, prop, mask = arr_exprs(m, X, Y, wm)
+            r = G.observe(arr_action(m, X, Y))
             pl = {'measure': m, 'class': cls, 'X': G.arr_json(X), 'Y': None if Y is None else G.arr_json(Y), 'form': 'array', 'flags': fl}
-            mask = pearson_mask(xs, ys) if m == 'pearson' else None
             record('a%d/%s/%d' % (i, m, len(cases)), r, model, pl, prop=prop, fkey=fk, mask=mask)
             bump(dist['forms'], 'array:' + cls.split('/')[1])
             bump(dist['measures'], m)
             ctx.count(('arr', m, str(X), str(Y)), any(any(v != 0 for v in r_) for r_ in xs))
             if m == 'soergel' and len(nojit_jobs) < ctx.n(100, 1500):
-                nojit_jobs.append(({'m': m, 'X': G.arr_json(X), 'Y': None if Y is None else G.arr_json(Y)}, model, prop, fk, pl))
+                nojit_jobs.append(({'m': m, 'X': G.arr_json(X), 'Y': None if Y is None else G.arr_json(Y)}, model, prop, fk, pl, mask))
 
     # ------------------------------------------------------------------ 4. the same Soergel kernels without numba (pure Python)
     if nojit_jobs:
@@ -247,13 +338,13 @@ def run(ctx):
             ctx.notes.append('NUMBA_DISABLE_JIT worker: jit_disabled=%s, %d soergel calls' % (out['jit_disabled'], len(out['results'])))
             if not out['jit_disabled']:
                 ctx.fail('the worker did not run with the JIT disabled', {}, no_input=True, kind='harness-error')
-            for (job, model, prop, fk, pl), r in zip(nojit_jobs, out['results']):
+            for (job, model, prop, fk, pl, mask), r in zip(nojit_jobs, out['results']):
                 r = tuple(r)
                 if r[0] == 'ok':
                     r = ('ok', [[Fraction(x) for x in row] for row in r[1]])
                 pl = dict(pl)
                 pl['form'] = 'array (NUMBA_DISABLE_JIT=1)'
-                record('nojit/%s/%d' % (job['m'], len(cases)), r, model, pl, prop=prop, fkey=fk)
+                record('nojit/%s/%d' % (job['m'], len(cases)), r, model, pl, prop=prop, fkey=fk, mask=mask)
                 dist['nojit_cases'] += 1
                 ctx.count(('nojit', str(job)), True)
         import numba
@@ -270,21 +361,101 @@ def run(ctx):
         '(fp,fp) (fp,None) (fp,db) (db,fp) (db,db) (db,None), array_metrics on dense / CSR / mixed, Soergel kernels also with '
         'NUMBA_DISABLE_JIT=1); each call gives a `corr` case (implementation vs model of the code path) and, for lengths <= %d, a '
         '`prop` case (implementation vs definition); a case is non-trivial when both operands are non-empty and differ (arrays: some '
-        'non-zero entry); distinct by full input, form and measure' % PROP_MAX_WIDTH)
+        'non-zero entry); distinct by full input, form and measure.  NOT compared (counted in input_distribution): Pearson matrix entries '
+        'with a constant non-zero operand (masked_pearson_entries[_by_form], masked_pearson_scalar_calls), Tanimoto/Dice on raw non-0/1 '
+        'arrays (skipped_tanimoto_dice_on_nonbinary_arrays).  Float rounding is exercised by the non-dyadic streams (fingerprint class '
+        'nondyadic_float and array class floatx: values 0.1, 1/3, 2.7, 0.3, 1.7, 1e-3, 12.75, 0.7, 1000.1; nondyadic_float_calls); all '
+        'other float inputs are dyadic with small numerators, where only the divisions and means round' % PROP_MAX_WIDTH)
     ctx.coverage['input_distribution'] = dist
     ctx.assumptions += [
         'array_metrics.tanimoto/dice are called on raw arrays with 0/1 data only (any dtype, explicit zeros, duplicates that add up to 0/1): their docstring states "Data must be binary. This is not checked."; the theorems arr/sp_tanimoto_eq_def carry the hypothesis `binary`',
         'values are non-negative; counts < 2^16 (the uint16 database dtype); float inputs are finite doubles, taken exactly',
-        'Pearson with a constant non-zero operand is mathematically 0/0: the array/database forms decide it by round-off (observed: CSR rows [1]*6 against each other give 1.0000000000000002, the dense form 0.0), so those matrix entries are masked; the fingerprint-pair form is compared (exactly representable constants reach its zero-denominator branch and score 0)',
+        'GENERATOR NARROWING: Pearson with a constant non-zero operand is mathematically 0/0 and the array/database forms decide it by round-off - observed on the current tree: CSR rows [1]*6 against each other give 1.0000000000000002 where the dense form gives 0.0, i.e. the two representations do NOT agree there; those matrix entries are masked in both comparison streams (corr and prop) and counted in input_distribution.masked_pearson_entries; the fingerprint-pair form is compared for exactly representable constants (they reach its zero-denominator branch and score 0) and masked for non-dyadic constants',
+        'the known-finding key fp-tanimoto-dice-explicit-zero-count is attached only when the implementation returned exactly the value obtained by counting stored positions as set bits, in a fingerprint-pair form of tanimoto/dice with a stored zero count; any other disagreement on such an input is an unkeyed violation',
         'database forms of Pearson only for bits <= %d and of Tanimoto/Dice/cosine for bits <= 2^20 (the code densifies, resp. SciPy allocates O(bits): 32 GiB at 2^32); Soergel database forms and all fingerprint-pair forms are run up to 2^32' % PEARSON_DB_MAX_BITS,
         'NumPy/SciPy kernels (dot, sparse product, cdist, corrcoef, sparse norm, sorted_indices, nan_to_num) and numba behave as modelled; exercised by the correspondence only',
-        'tolerance 1e-9 (relative above 1); rooted values are compared through the monotone signed square, exactly',
+        'tolerance 1e-9 (relative above 1); rooted values are compared through the monotone signed square, exactly; dyadic inputs exercise it only through / and mean, the non-dyadic streams through every sum and product',
     ]
     if not ok:
         core.report_broken_proof(ctx, res, found_input)
 
 
 def replay(ctx, path):
+    """Re-run the recorded case on both sides (implementation from VERIF_REPO, model and definition inside Coq).
+    Exit 1 with a VIOLATION line if it still fails, 0 if it passes now (or reproduces the listed known finding)."""
     d = json.load(open(path))
-    print(json.dumps(d, indent=1)[:6000])
-    return 0
+    c = d.get('case', {})
+    form, m = c.get('form'), c.get('measure')
+    if not form or m not in MEASURES:
+        print('replay: %s does not carry a C06 case (kind=%s): %s' % (path, d.get('kind'), d.get('what', '')[:300]))
+        print('VIOLATION property=C06 replay=%s no-failing-input-found' % path)
+        return 1
+    import e3fp.fingerprint.metrics as M
+    fk = None
+    if form.startswith('array'):
+        X = G.arr_from_json(c['X'])
+        Y = None if c.get('Y') is None else G.arr_from_json(c['Y'])
+        wm = Y is not None and Y['w'] != X['w']
+        model, prop, mask = arr_exprs(m, X, Y, wm)
+        if 'NUMBA_DISABLE_JIT' in form:
+            inp, outp = os.path.join(ctx.workdir, 'rp_in.json'), os.path.join(ctx.workdir, 'rp_out.json')
+            json.dump([{'m': m, 'X': c['X'], 'Y': c.get('Y')}], open(inp, 'w'))
+            env = dict(os.environ, NUMBA_DISABLE_JIT='1', VERIF_REPO=core.REPO)
+            subprocess.run([sys.executable, '-B', os.path.join(core.VERIF, 'harness', 'metrics_gen.py'), inp, outp], env=env, timeout=600)
+            r = tuple(json.load(open(outp))['results'][0])
+            if r[0] == 'ok':
+                r = ('ok', [[Fraction(x) for x in row] for row in r[1]])
+        else:
+            r = G.observe(arr_action(m, X, Y))
+    elif 'other' in form:
+        sa = G.fp_from_json(c['a'])
+        a0 = fpgen.obs(fpgen.build(sa))
+        other = other_object(c['other'], a0['bits'])
+        prop = mask = None
+        if form == 'fp,other':
+            model = 'dispatch %s (IFp %s) (Some IOther)' % (MCON[m], fpgen.lit(a0))
+            r = G.observe(lambda: getattr(M, m)(fpgen.build(sa), other))
+        else:
+            model = 'dispatch %s IOther (Some (IFp %s))' % (MCON[m], fpgen.lit(a0))
+            r = G.observe(lambda: getattr(M, m)(other, fpgen.build(sa)))
+    else:
+        sa = G.fp_from_json(c['a']) if 'a' in c else None
+        sb = G.fp_from_json(c['b']) if 'b' in c and isinstance(c['b'], dict) else None
+        a0 = fpgen.obs(fpgen.build(sa)) if sa and form.startswith(('fm', 'fp')) else None
+        b0 = fpgen.obs(fpgen.build(sb)) if sb and (form in ('fm', 'fp,fp') or form.endswith(',fp')) else None
+        da0, mk_da = G.db_from_json(c['dbA']) if 'db,' in form else (None, None)
+        db0, mk_db = G.db_from_json(c['dbB']) if ',db' in form else (None, None)
+        model, prop, mask, scalar = fp_exprs(form, m, a0, b0, da0, db0)
+        if scalar and c.get('class') != 'nondyadic_float':
+            mask = None
+        r = G.observe(fp_action(form, m, lambda: fpgen.build(sa), lambda: fpgen.build(sb), mk_da, mk_db))
+        if a0 is not None and (b0 is not None or form == 'fp,None'):
+            fk = zero_count_key(form, m, a0, b0, r)
+    print('replay: form=%s measure=%s class=%s' % (form, m, c.get('class')))
+    print('  implementation now: %s' % json.dumps(G.obs_json(r))[:600])
+    print('  implementation then: %s' % json.dumps(c.get('impl'))[:600])
+    if r[0] not in ('ok', 'err'):
+        print('VIOLATION property=C06 replay=%s' % path)
+        print('  implementation returned %s' % r[0])
+        return 1
+    if mask and r[0] == 'ok' and not isinstance(r[1], list):
+        print('replay: scalar Pearson with a constant operand is not compared (0/0)')
+        return 0
+    exprs = case_exprs(r, model, prop, mask)
+    results, logs = core.coq_eval_bools([(w, e) for w, e in exprs], IMPORTS, os.path.join(ctx.workdir, 'replay_eval'))
+    bad = [w for w, _ in exprs if results.get(w) is not True]
+    for w, e in exprs:
+        print('  %s: %s' % (w, {True: 'agrees', False: 'DISAGREES', None: 'model evaluation did not complete'}[results.get(w)]))
+    for w in bad:
+        out = core.coq_eval_raw(model if w == 'corr' else prop, IMPORTS, os.path.join(ctx.workdir, 'replay_raw'))
+        print('  %s expected: %s' % ('model of the code path' if w == 'corr' else 'definition', out[-800:]))
+    import shutil
+    shutil.rmtree(ctx.workdir, ignore_errors=True)
+    if not bad:
+        print('replay: the case passes on this tree')
+        return 0
+    if bad == ['prop'] and fk is not None and any(f.get('status') == 'known' and f.get('key') == fk for f in ctx.findings):
+        print('KNOWN-FINDING: property=C06 %s' % fk)
+        return 0
+    print('VIOLATION property=C06 replay=%s' % path)
+    return 1
